@@ -237,7 +237,7 @@ var textCorpus []byte
 
 func corpusText(n int) []byte {
 	if textCorpus == nil {
-		b, err := os.ReadFile("/repo/lzhuf/testdata/Mark.Twain-Tom.Sawyer.txt")
+		b, err := os.ReadFile(core.Repo + "/lzhuf/testdata/Mark.Twain-Tom.Sawyer.txt")
 		if err != nil {
 			core.Infra("%v", err)
 		}
